@@ -309,9 +309,16 @@ def ir_rules(rep, repo):
     want2 = [('tmp', 'arg0', 'arg2'), ('arg0', 'arg1', 'arg2'), ('arg1', 'tmp', 'arg2')]
     same_block = len(set(c.block for c in cp)) <= 1
     ok = seq in (want1, want2) and not other and same_block
-    rep.inst('R-PERM', 'swap', 'three-copy exchange through a temporary of size bytes', ok, wsw,
-             None if ok else 'swap(fst, snd, size) performs %s; an exchange is tmp<-snd, snd<-fst, fst<-tmp with size bytes each'
-             % (seq,), fact={'copies': seq})
+    if not cp and sw.loops:
+        # a hand-written exchange loop instead of the three block copies: this rule describes the copy form only (the
+        # accesses of the loop are still decided by R-QSORT-*:bounds)
+        rep.defer_broken(AnalysisBroken('swap: no block copies, the exchange is a hand-written loop (R-PERM describes the '
+                                        'three-copy form)'))
+        ok = None
+    if ok is not None:
+        rep.inst('R-PERM', 'swap', 'three-copy exchange through a temporary of size bytes', ok, wsw,
+                 None if ok else 'swap(fst, snd, size) performs %s; an exchange is tmp<-snd, snd<-fst, fst<-tmp with size bytes each'
+                 % (seq,), fact={'copies': seq})
     # bsearch/qsort: the comparator is the function pointer parameter (not a fixed function)
     bm = libc_unit(repo, 'compat/libc/stdlib/bsearch.c', inline=keep_all_but_new_helpers())
     for (m, fname, argno) in ((bm, 'bsearch', 4), (bm, 'lower_bound', 4), (bm, 'upper_bound', 4), (mod, 'qsort', 3)):
